@@ -278,7 +278,7 @@ def run(ctx, report: Report) -> None:
         r4.violation('purge cache_clear', pmod.where(purge), 'purge() no longer clears the _cached_css_compile cache')
 
     # ---- R5 (texts compiled by interpretation, bounded) -----------------------------------------------------------------
-    r5 = report.rule('C15-R5', 'what a pattern compiles to under a custom map does not depend on maps compiled earlier (bounded)', floor=3)
+    r5 = report.rule('C15-R5', 'what a pattern compiles to under a custom map does not depend on maps compiled earlier (bounded)', floor=2)
     from .e2etab import custom_isolation_table
     custom_isolation_table(ctx, r5)
 
